@@ -41,6 +41,11 @@ MUTANTS += [
     ("generate_replaces_unparsable_value", G, "        if tree is None:\n            raise FandangoParseError(\n                f\"Could not parse {string!r} (generated by {self.generators[symbol]}) into {symbol.format_as_spec()}\"\n            )\n",
      "        if tree is None:\n            tree = self.fuzz(symbol)\n", "Grammar.generate"),
     ("generate_shares_sources", G, "        tree.sources = [p.deepcopy(copy_parent=False) for p in sources]", "        tree.sources = list(sources)", "Grammar.generate"),
+    ("generate_sources_without_their_own_sources", G, "        tree.sources = [p.deepcopy(copy_parent=False) for p in sources]", "        tree.sources = [p.deepcopy(copy_params=False, copy_parent=False) for p in sources]", "Grammar.generate"),
+    ("derive_output_swallows_parse_error", G, "        generated = self.generate(tree.nonterminal, tree.sources)\n        return generated.children",
+     "        try:\n            generated = self.generate(tree.nonterminal, tree.sources)\n        except FandangoParseError:\n            return tree.children\n        return generated.children", "Grammar.derive_generator_output"),
+    ("derive_output_of_children_not_sources", G, "        generated = self.generate(tree.nonterminal, tree.sources)\n        return generated.children",
+     "        generated = self.generate(tree.nonterminal, tree.children)\n        return generated.children", "Grammar.derive_generator_output"),
     ("generate_parses_under_start", G, "        tree = self.parse(string, symbol)\n        if tree is None:\n            raise FandangoParseError", "        tree = self.parse(string)\n        if tree is None:\n            raise FandangoParseError", "Grammar.generate"),
     ("generate_accepts_lists", G, "        if not (isinstance(string, (str, bytes, int, tuple))):", "        if string is None:", "Grammar.generate"),
 ]
